@@ -169,6 +169,26 @@ func styleOnly(detail string) bool {
 	return true
 }
 
+var eventDiffRe = regexp.MustCompile(`impl\[E ([^\]]*)\] model\[E ([^\]]*)\]`)
+
+// styleEventDiff: the E projections differ in their StyleChanged events (s:…)
+func styleEventDiff(detail string) bool {
+	m := eventDiffRe.FindStringSubmatch(detail)
+	if m == nil {
+		return false
+	}
+	pickS := func(s string) string {
+		var out []string
+		for _, e := range strings.Split(s, ",") {
+			if strings.HasPrefix(e, "s:") {
+				out = append(out, e)
+			}
+		}
+		return strings.Join(out, ",")
+	}
+	return pickS(m[1]) != pickS(m[2])
+}
+
 // hasProj: one of the named projections diverged (prefix match: "M" covers Mgeo/Msty/Mkbd, "R" covers R0/R1).
 func hasProj(clause string, names ...string) bool {
 	for _, p := range strings.Split(clause, "+") {
@@ -208,22 +228,30 @@ func owns(p string, f finding) bool {
 	case "C05":
 		return cl["erase"] && content
 	case "C06":
-		return cl["scroll"] && content
+		// … and what Resize does to the scroll region
+		return (cl["scroll"] && content) || (cl["resize"] && hasProj(proj, "Mgeo", "Ageo") && !hasProj(proj, "R"))
 	case "C07":
-		return hasProj(proj, "Msty", "Asty") || (cl["sgr"] && hasProj(proj, "E")) || (hasProj(proj, "R") && styleOnly(f.Detail))
+		// … the rendition the frontend is told (StyleChanged events), at whatever step
+		return hasProj(proj, "Msty", "Asty") || (cl["sgr"] && hasProj(proj, "E")) || (hasProj(proj, "R") && styleOnly(f.Detail)) ||
+			(hasProj(proj, "E") && styleEventDiff(f.Detail))
 	case "C09":
 		return f.Kind == "framing" || hasProj(proj, "G") || ((cl["unknown"] || cl["dcs"] || cl["c0other"]) && proj != "") || (cl["osc"] && proj != "")
 	case "C10":
 		return (cl["bell"] && hasProj(proj, "E")) || hasProj(proj, "L")
 	case "C14":
 		return hasProj(proj, "W")
+	case "C16":
+		// the token reader in grapheme mode (where runs and merge fragments begin and end at read
+		// boundaries): text steps of the chunked grapheme-mode job
+		return f.Gmode && cl["text"] && (content || hasProj(proj, "G") || f.Kind == "framing")
 	case "C17":
 		// also: anything that changes in the buffer that is NOT active (the buffers are independent)
 		inactive := hasProj(proj, "A", "R1")
 		if f.Alt {
 			inactive = hasProj(proj, "M", "R0")
 		}
-		return (cl["mode"] && proj != "") || hasProj(proj, "V") || (inactive && f.Kind == "diverge" && f.Tags != "init" && !cl["resize"])
+		return (cl["mode"] && proj != "") || hasProj(proj, "V") || (inactive && f.Kind == "diverge" && f.Tags != "init" && !cl["resize"]) ||
+			(f.Alt && hasProj(proj, "Mkbd", "Akbd")) // keyboard state going wrong while the alternate buffer is active
 	case "C18":
 		// the initial sizing is a Resize too (from the 80x24 default to the case's size)
 		return (cl["resize"] || f.Tags == "init") && proj != ""
